@@ -50,10 +50,10 @@ Touches(ls, d) == \E i \in 1..Len(ls) : CASE d = "StAsCsi" -> Contains(ls[i], <<
                                             [] d = "SkipEmptyParam" -> Contains(ls[i], <<"[", ";">>) \/ Contains(ls[i], <<";", ";">>)
                                                                        \/ Contains(ls[i], <<";", "m">>)
                                             [] d = "OpenSpanAtEol" -> HasStripping(ls[i])
-Alts(ls, exp) == LET idx == SelectSeq([i \in 1..Len(DevSets) |-> i],
-                                      LAMBDA i : /\ \A d \in DevSets[i] : Touches(ls, d)
-                                                 /\ Predict(ls, Corners \cup DevSets[i]) # exp)
-                 IN [k \in 1..Len(idx) |-> [dv |-> DevNames[idx[k]], exp |-> Predict(ls, Corners \cup DevSets[idx[k]])]]
+Alts(ls, exp) == LET touched == {d \in {"StAsCsi", "SkipEmptyParam", "OpenSpanAtEol"} : Touches(ls, d)}
+                     idx == SelectSeq([i \in 1..Len(DevSets) |-> i], LAMBDA i : DevSets[i] \subseteq touched)
+                     all == [k \in 1..Len(idx) |-> [dv |-> DevNames[idx[k]], exp |-> Predict(ls, Corners \cup DevSets[idx[k]])]]
+                 IN SelectSeq(all, LAMBDA a : a.exp # exp)
 Case(ls) == LET exp == Predict(ls, Corners) IN [lines |-> ls, exp |-> exp, alts |-> Alts(ls, exp)]
 
 -------------------------------------------------------------------------------
@@ -146,6 +146,8 @@ GSgrClose == /\ Tick /\ mode = "sgr" /\ cur' = cur \o <<"m">> /\ mode' = "top" /
 GNewLine == /\ Tick /\ mode = "top" /\ Len(done) < 2 /\ done' = Append(done, cur) /\ cur' = <<>> /\ plain' = <<>>
             /\ UNCHANGED <<mode, ng, exotic>>
 GNext == GText \/ GCtl \/ GStruck \/ GSt \/ GSgrOpen \/ GGroup \/ GEmpty \/ GSgrClose \/ GNewLine
+(* for -simulate: one action, so that TLC draws uniformly from all successors instead of first drawing a disjunct *)
+GNextSim == steps < Depth /\ GNext
 
 GCur == IF mode = "sgr" THEN cur \o <<"m">> ELSE cur
 GLines == Append(done, GCur)
